@@ -85,6 +85,12 @@ type SchedSpec struct {
 	VictimSalt uint64 `json:"victim_salt"`
 	VictimMod  uint64 `json:"victim_mod"`
 	StallBudget int   `json:"stall_budget"` // at most this many stalls per run: most of the run makes progress
+	// slow handlers: the tasks serving RPC method SlowMethod stall with
+	// probability SlowProb for up to SlowMax at every chord scheduling point
+	// they reach (a slow request thread: every window inside that handler opens)
+	SlowMethod string        `json:"slow_method,omitempty"`
+	SlowProb   float64       `json:"slow_prob,omitempty"`
+	SlowMax    time.Duration `json:"slow_max,omitempty"`
 }
 
 type Plan struct {
@@ -471,6 +477,14 @@ func genC08(p *Plan, r *simrt.Rand, hashes []uint64) {
 	}
 	if lastSurvivor {
 		p.Sched.VictimMod, p.Sched.StallBudget, p.Sched.StallMax = 8, 150, time.Second
+	}
+	if r.Chance(0.6) {
+		// slow join-request threads: the request sits at each of its lock sites for
+		// a while, so that failure detection runs in between
+		p.Sched.SlowMethod, p.Sched.SlowProb, p.Sched.SlowMax = "RequestToJoin", pick(r, 0.3, 0.6), p.Pred
+		if p.Sched.StallBudget < 60 {
+			p.Sched.StallBudget = 60
+		}
 	}
 	for i := n; i < n+extra; i++ {
 		// adjacent / equal ids on purpose
